@@ -147,6 +147,10 @@ class Executor(Engine):
             ty = self.cur.ty(self.cur.locals[target.id])
             if isinstance(ty, (TList, TSet)):
                 value._elem_ty = ty.elem
+            if isinstance(ty, TBag):
+                value._elem_ty = ty.elem
+                if isinstance(value, ast.ListComp):
+                    value._as_bag = True     # the list is only ever used as a multiset (contract `locals`): exact multiplicities
             if isinstance(ty, TDict):
                 value._dict_ty = ty
             if isinstance(ty, TOpt) and isinstance(ty.inner, TDict):
@@ -656,6 +660,8 @@ class Executor(Engine):
         if self.feasible(stb.pc):
             stb = self.assign(node.target, tval, stb, results, node.lineno)
             stb.env[f'_k{ordn}'] = V(INT, k)   # ghost iteration counter, visible to nested loop invariants
+            if done is not None:
+                stb.env[('_seen' if kind == 'dict' else '_done') + str(ordn)] = done   # ... and the members already visited
             for st2, o in self.exec_block(node.body, stb):
                 if o is None or o[0] == 'continue':
                     extra2 = bagv(st2)
